@@ -601,6 +601,11 @@ pub fn plan(seed: u64, prop: &str, run: u64, sem: Sem) -> Plan {
         }
         b_variants = vec![good, bad];
     }
+    // semantic runs: in a quarter of them a second folder shares a module with the first
+    let shared_folder = semantic && wl.chance(1, 4);
+    if shared_folder {
+        disk.insert("fb/main.oal".into(), "res /fbres on get -> <>;\n".into());
+    }
     let mut b = Builder {
         events: Vec::new(),
         disk: disk.clone(),
@@ -608,7 +613,7 @@ pub fn plan(seed: u64, prop: &str, run: u64, sem: Sem) -> Plan {
         sw: &sw,
         sched: &mut sched,
         folder_present: true,
-        folder_b_present: sw.second_folder,
+        folder_b_present: sw.second_folder || shared_folder,
         deleted: BTreeMap::new(),
         b_variants,
     };
@@ -678,7 +683,26 @@ pub fn plan(seed: u64, prop: &str, run: u64, sem: Sem) -> Plan {
             if let (true, Some((pi, l))) = (semantic, tgt.program.as_ref()) {
                 let mods = gen::render(&programs[*pi], l);
                 let mut r = Rng::from_u64(crate::prng::mix_u64(l.seed, ti as u64));
-                sem_targets.push(crate::sem::build_target(&programs[*pi], &mods, &mut r));
+                let mut st = crate::sem::build_target(&programs[*pi], &mods, &mut r);
+                if shared_folder {
+                    // the second folder's main follows the program it shares a module with
+                    if crate::sem::add_shared_folder(&mut st, &programs[*pi], ti) {
+                        let want = st.files["fb/main.oal"].clone();
+                        if b.effective("fb/main.oal") != Some(&want) {
+                            if !b.open.contains_key("fb/main.oal") {
+                                let cur = b.disk.get("fb/main.oal").cloned().unwrap_or_default();
+                                b.open.insert("fb/main.oal".into(), cur.clone());
+                                b.events.push(Ev::Open { path: "fb/main.oal".into(), text: cur });
+                            }
+                            b.open.insert("fb/main.oal".into(), want.clone());
+                            b.events.push(Ev::Change {
+                                path: "fb/main.oal".into(),
+                                changes: vec![Chg { range: None, text: want }],
+                            });
+                        }
+                    }
+                }
+                sem_targets.push(st);
                 // sometimes quiesce first, sometimes let the first request meet a stale server
                 if b.sched.chance(1, 2) {
                     b.events.push(Ev::Idle);
@@ -719,7 +743,7 @@ pub fn plan(seed: u64, prop: &str, run: u64, sem: Sem) -> Plan {
             hash_seed: env.next_u64(),
             events,
             sem: sem_targets,
-            folder_b: sw.second_folder,
+            folder_b: sw.second_folder || shared_folder,
         },
         programs,
         targets,
